@@ -52,7 +52,7 @@ pub fn info() -> PropertyInfo {
             "every cycle of a continuation drives every declared %I address on both runtimes (inputs are environment, not state)",
             "after a warm restart / power cycle only variables are demanded by the property; the continuation differential against the model runtime is run when time, fault latch and cycle counter agree as well (they do on the real code: restart resets them in both modes)",
             "SINGLE trigger variables are declared non-retained (the property does not define the task edge state after a warm restart)",
-            "FB instances are never declared RETAIN/PERSISTENT, VAR_CONFIG carries no initial values and no variable is bound to %M while the corresponding known findings are open (counted as excluded shapes)",
+            "FB instances are never declared RETAIN/PERSISTENT (open finding C09-retain-fb-instance, counted as excluded shape); VAR_CONFIG initial values, %M bindings and restart_with_retain ops are generated unless their (now fixed) findings are re-opened",
             "power cycle in the quick tier = save -> new Runtime from the same sources -> load through FileRetainStore inside one process; the thorough tier additionally loads the file in a separate tpv process and compares its dump",
         ],
         workers_quick: 8,
